@@ -24,6 +24,7 @@ import (
 	"github.com/apmckinlay/gsuneido/util/regex"
 	"github.com/apmckinlay/gsuneido/util/str"
 	"github.com/apmckinlay/gsuneido/util/tr"
+	"github.com/apmckinlay/gsuneido/util/verif"
 )
 
 // MainThread is injected by gsuneido.go
@@ -413,7 +414,13 @@ func (th *Thread) Timestamp() PackableValue {
 		// fast path
 		if tsLimit == TsInitialBatch {
 			tsLast = tsLast.AddMs(1)
+			if verif.On {
+				verif.Event("TsClient", "last", tsLast, "count", tsCount, "limit", tsLimit)
+			}
 			return tsLast
+		}
+		if verif.On {
+			verif.Event("TsClient", "last", tsLast, "count", tsCount, "limit", tsLimit)
 		}
 		return SuTimestamp{SuDate: tsLast, extra: uint8(tsCount)}
 	}
@@ -427,6 +434,9 @@ func (th *Thread) Timestamp() PackableValue {
 		tsLimit = TsInitialBatch
 	} else {
 		tsLimit = 256
+	}
+	if verif.On {
+		verif.Event("TsClient", "last", tsLast, "count", tsCount, "limit", tsLimit)
 	}
 	return tsLast
 }
